@@ -453,11 +453,15 @@ class FmtStr:
         """Return a list of lines, split on newline characters,
         include line boundaries, if keepends is true."""
         lines = self.split("\n")
-        return (
-            [line + "\n" for line in lines]
-            if keepends
-            else (lines if lines[-1] else lines[:-1])
-        )
+        if keepends:
+            # slice again so that every line keeps its own newline character
+            starts = [0]
+            for line in lines[:-1]:
+                starts.append(starts[-1] + len(line) + 1)
+            lines = [
+                self[start:end] for start, end in zip(starts, starts[1:] + [len(self)])
+            ]
+        return lines if lines[-1] else lines[:-1]
 
     # proxying to the string via __getattr__ is insufficient
     # because we shouldn't drop foreground or formatting info
